@@ -276,7 +276,9 @@ CONFIG = {
         "rule": BUF_MODEL + "non-trivial = >=2 consumers alive at once AND >=1 eviction while a consumer was open AND >=1 batch of >=2 values; distinct = hash of the executed op trace." + BUF_FREE +
                 " conslin (see C02) contributes its no-gap oracle for a consumer shared by several goroutines.",
         "jobs": [{"name": "conslin", "test": "TestConsLin", "checks": {"quick": 24000, "thorough": 1000000}, "shards": {"quick": 4, "thorough": 8}, "env": {"VKIT_PROFILE": "C01"}, "stall_sig": "C01/stall"},
-                 buffree("C01", 12000, 600000), bufstep("C01", 24000, 800000)],
+                 buffree("C01", 12000, 600000), bufstep("C01", 24000, 800000),
+                 # race lane: Put against the cancellation of its own context (a Put takes effect and returns nil, or fails and contributes nothing)
+                 {"name": "putcancel", "test": "TestBufPutCancel", "checks": {"quick": 400, "thorough": 40000}, "shards": {"quick": 4, "thorough": 16}, "stall_sig": "C01/stall"}],
     },
     "C02": {
         "rule": BUF_MODEL + "non-trivial = a rollback of >=2 uncommitted values followed by a re-read, or a Range ended by a callback panic; distinct = hash of the executed op trace." + BUF_FREE +
